@@ -78,6 +78,18 @@ class Summary:
         self.calls = set()
 
 
+def _hold(r, p):
+    """a fresh container (display) holding a reference to (r, p)"""
+    return (r, p if p and p[-1] == "@" else p + ("@",))
+
+
+def _elem(r, p):
+    """element of a container: the held object of a fresh display, else an item of the aliased container"""
+    if p and p[-1] == "@":
+        return (r, p[:-1])
+    return (r, _trim(p + ("[]",)))
+
+
 def _trim(path):
     # keep head and tail: the tail decides whether the written field is a declared cache
     return path if len(path) <= 6 else path[:2] + ("...",) + path[-3:]
@@ -170,6 +182,8 @@ class Effects:
             if isinstance(e, ast.Attribute):
                 out = set()
                 for r, p in refs(e.value):
+                    if p and p[-1] == "@":
+                        continue
                     prop = self.property_of(self.kind_of(fi, r, p), e.attr)
                     if prop is not None:
                         ps = self.sum.get(self.key(prop))
@@ -185,7 +199,7 @@ class Effects:
             if isinstance(e, ast.Subscript):
                 if isinstance(e.value, ast.Attribute) and e.value.attr in ("loc", "iloc", "at", "iat"):
                     return set()        # pandas selection: a copy (documented assumption)
-                return {(r, _trim(p + ("[]",))) for r, p in refs(e.value)}
+                return {_elem(r, p) for r, p in refs(e.value)}
             if isinstance(e, ast.Starred):
                 return refs(e.value)
             if isinstance(e, (ast.IfExp,)):
@@ -195,10 +209,16 @@ class Effects:
                 for v in e.values:
                     out |= refs(v)
                 return out
-            if isinstance(e, (ast.Tuple, ast.List)):
+            if isinstance(e, (ast.Tuple, ast.List, ast.Set)):
                 out = set()
                 for v in e.elts:
-                    out |= {(r, p) for r, p in refs(v)}
+                    out |= {_hold(r, p) for r, p in refs(v)}
+                return out
+            if isinstance(e, ast.Dict):
+                out = set()
+                for v in e.values:
+                    if v is not None:
+                        out |= {_hold(r, p) for r, p in refs(v)}
                 return out
             if isinstance(e, ast.NamedExpr):
                 return refs(e.value)
@@ -322,6 +342,8 @@ class Effects:
         def record(root, path, node_, what):
             if root in fresh_params:
                 return
+            if "@" in path[:-1] or (path and path[-1] == "@"):
+                return      # a store into / mutation of a fresh container
             if root.startswith("global:"):
                 s.gwrites.add((root[7:], path))
                 self.sites.setdefault((self.key(fi), root, path), (node_.lineno, what))
@@ -335,6 +357,8 @@ class Effects:
                     record(r, _trim(p + (t.attr,)), node_, f"store to .{t.attr}")
             elif isinstance(t, ast.Subscript):
                 for r, p in refs(t.value):
+                    if p and p[-1] == "@":
+                        continue
                     record(r, _trim(p + ("[]",)), node_, "item store")
             elif isinstance(t, (ast.Tuple, ast.List)):
                 for e in t.elts:
@@ -365,6 +389,8 @@ class Effects:
                                   for k in st.keywords)
                     if f.attr in MUTATING or inplace:
                         for r, p in refs(f.value):
+                            if p and p[-1] == "@":
+                                continue
                             record(r, _trim(p + ("[]",)), st, f".{f.attr}({'inplace=True' if inplace else ''})")
                     if f.attr == "setattr":
                         pass
@@ -411,7 +437,7 @@ class Effects:
                 return
             for n in ast.walk(e):
                 if isinstance(n, ast.comprehension):
-                    rv = {(r, _trim(p + ("[]",))) for r, p in refs(n.iter)}
+                    rv = {_elem(r, p) for r, p in refs(n.iter)}
                     tg = n.target
                     for x in ([tg] if isinstance(tg, ast.Name) else getattr(tg, "elts", [])):
                         if isinstance(x, ast.Name):
@@ -466,7 +492,7 @@ class Effects:
                 return
             if isinstance(st, (ast.For, ast.AsyncFor)):
                 expr_effects(st.iter)
-                rv = {(r, _trim(p + ("[]",))) for r, p in refs(st.iter)}
+                rv = {_elem(r, p) for r, p in refs(st.iter)}
                 snap = snapshot()
                 for _ in range(2):
                     bind(st.target, rv, strong=False)
